@@ -736,6 +736,9 @@ func (m *Manager) subscriberShutdown(id string) {
 		wrap := val.(*container)
 		if wrap.sub != nil {
 			wrap.sub.Offline(true)
+			// a subscriber that has been shut down must not be handed to the next connection of
+			// this client id (its channels are closed): the container starts over with a new one
+			wrap.sub = nil
 		}
 	} else {
 		m.log.Error("subscriber shutdown. container not found", zap.String("ClientID", id))
